@@ -75,11 +75,14 @@ Definition children (t : tree) (p : path) : list name :=
   flat_map (fun e => if is_prefix p (fst e) && (Nat.eqb (length (fst e)) (S (length p))) then [base (fst e)] else []) t.
 Definition reroot (src dst q : path) : path := dst ++ skipn (length src) q.
 
-Definition put (t : tree) (q : path) (e : entry) : tree :=
-  match e with F c => set_file t q c | D => add_dir t q end.
 (* cp -r src dst, merging into what is already at dst *)
+Definition unroot (src dst x : path) : path := src ++ skipn (length dst) x.       (* the path whose image under reroot is x *)
+Definition has_source (t : tree) (src dst x : path) : bool :=
+  is_prefix dst x && match find_entry t (unroot src dst x) with Some _ => true | None => false end.
+(* every entry at or below src is written at the corresponding place below dst (files overwrite, directories merge:
+   kind clashes are excluded by graft_conflict); what has no counterpart below src stays *)
 Definition graft (t : tree) (src dst : path) : tree :=
-  fold_left (fun t' e => put t' (reroot src dst (fst e)) (snd e)) (sub t src) t.
+  filter (fun e => negb (has_source t src dst (fst e))) t ++ map (fun e => (reroot src dst (fst e), snd e)) (sub t src).
 Definition graft_conflict (t : tree) (src dst : path) : bool :=
   existsb (fun e => match lookup t (reroot src dst (fst e)), snd e with
                     | Some (F _), D | Some D, F _ => true
@@ -364,6 +367,12 @@ Definition exec (t : tree) (c : call) : outcome :=
   | Move a b => r_move t a b | RelPath a => r_relpath t a
   end.
 
+(* ---------- well-formed trees: the ancestors of every entry are directories (as in the dump of a real file system) ---------- *)
+Definition wf (t : tree) : Prop :=
+  forall p e, find_entry t p = Some e -> forall q, In q (proper_prefixes p) -> is_dir t q = true.
+(* boolean version, evaluated on every observed dump *)
+Definition wf_b (t : tree) : bool := forallb (fun e => forallb (is_dir t) (proper_prefixes (fst e))) t.
+
 (* ---------- the destination of a call (second sentence of the property) ---------- *)
 
 Definition arg_path (a : parg) : list path := match a with PEmpty => [] | P p _ => [p] end.
@@ -383,6 +392,16 @@ Fixpoint run (t : tree) (cs : list call) : option tree :=
   match cs with
   | [] => Some t
   | c :: cs' => match exec t c with Out _ t' => run t' cs' | Unconstrained => None end
+  end.
+
+(* the same, collecting the results *)
+Fixpoint run_res (t : tree) (cs : list call) : option (list res * tree) :=
+  match cs with
+  | [] => Some ([], t)
+  | c :: cs' => match exec t c with
+                | Out r t1 => match run_res t1 cs' with Some (rs, t') => Some (r :: rs, t') | None => None end
+                | Unconstrained => None
+                end
   end.
 
 (* ---------- correspondence ---------- *)
